@@ -206,6 +206,10 @@ func newFixtures(dir string, distInline map[string]interface{}) (fx *fixtures, e
 		_, _ = w.Write([]byte("[]"))
 	})
 	mux.HandleFunc("/filters/"+filterListID+".txt", text("! C20 list\n||"+strings.TrimSuffix(blockedHost, ".")+"^\n"))
+	// Two lists that rewrite the same name differently (rule-list order
+	// script, rulebin_test.go); no filtering group of the base file uses them.
+	mux.HandleFunc("/filters/"+orderListZ+".txt", text("! first\n|"+strings.TrimSuffix(orderHost, ".")+"^$dnsrewrite=NOERROR;A;"+orderAnswerZ+"\n"))
+	mux.HandleFunc("/filters/"+orderListA+".txt", text("! second\n|"+strings.TrimSuffix(orderHost, ".")+"^$dnsrewrite=NOERROR;A;"+orderAnswerA+"\n"))
 	mux.HandleFunc("/adult.txt", text("adult.c20.example\n"))
 	mux.HandleFunc("/newreg.txt", text("newreg.c20.example\n"))
 	mux.HandleFunc("/sb.txt", text("danger.c20.example\n"))
@@ -222,6 +226,10 @@ func newFixtures(dir string, distInline map[string]interface{}) (fx *fixtures, e
 
 	idx := map[string]interface{}{"filters": []map[string]string{{
 		"filterKey": filterListID, "downloadUrl": "http://" + fx.httpAddr + "/filters/" + filterListID + ".txt",
+	}, {
+		"filterKey": orderListZ, "downloadUrl": "http://" + fx.httpAddr + "/filters/" + orderListZ + ".txt",
+	}, {
+		"filterKey": orderListA, "downloadUrl": "http://" + fx.httpAddr + "/filters/" + orderListA + ".txt",
 	}}}
 	ib, _ := json.Marshal(idx)
 	fx.index = filepath.Join(dir, "filters.json")
